@@ -23,6 +23,7 @@ def _cls(r):
 
 
 P = {
+    "s2i_rev": True,
     "dir": "quill",
     "mc": [{"module": "MC_Dummy", "cfg": "MC_Dummy.cfg"},
            # beyond the listed property: the edit cycle (remove_dummy -> enigma dir -> read -> diff -> insert_dummy) as composed by
@@ -35,7 +36,7 @@ P = {
     "classify_vec": _cls,
     "required_classes": ["remove/none", "remove/some", "remove/all", "insert/none", "insert/some", "insert/all",
                          "cycle/none/nothing", "cycle/none/changes", "cycle/rename-outer/changes", "cycle/name-field/changes", "cycle/unname-field/changes", "cycle/add-class/nothing"],
-    "level_text": "remove_dummy is specified operationally (nested retain closures, children first) and declaratively from the documented rules (an entry is removed iff its name in the chosen namespace is a placeholder of its kind - f_, m_/<init>/<clinit>, p_, C_/net/minecraft/unmapped/C_ as a prefix -, it carries no comment and all its children are removed; all other entries unchanged; idempotent; never removed with a retained child); the diff-side insert_dummy likewise (removal -> edit back to source name / p_<index> / simple inner name, additions of fields and parameters discarded, additions of methods and classes only kept with remaining children, nodes that change nothing and have no children dropped, idempotent). TLC checks operational = declarative on the exhaustive truth table of names (absent, placeholder, contains the prefix, ends with it, real, <init>/<clinit>, both class prefixes) x comment x children at depth class > method > parameter and class > field, with the chosen namespace last of 2 and of 3, and every action x comment action x children on the diff side for class keys K, A$B, p/A$B$1. Every case is replayed through the real functions; random larger trees with placeholder-like names and real diffs are judged by TLC.",
+    "level_text": "(Every vector of the bounded model is replayed twice, the second time with the entries of every mapping set inserted in the opposite order, and every second recorded case is built that way: the answers may not depend on insertion order.) remove_dummy is specified operationally (nested retain closures, children first) and declaratively from the documented rules (an entry is removed iff its name in the chosen namespace is a placeholder of its kind - f_, m_/<init>/<clinit>, p_, C_/net/minecraft/unmapped/C_ as a prefix -, it carries no comment and all its children are removed; all other entries unchanged; idempotent; never removed with a retained child); the diff-side insert_dummy likewise (removal -> edit back to source name / p_<index> / simple inner name, additions of fields and parameters discarded, additions of methods and classes only kept with remaining children, nodes that change nothing and have no children dropped, idempotent). TLC checks operational = declarative on the exhaustive truth table of names (absent, placeholder, contains the prefix, ends with it, real, <init>/<clinit>, both class prefixes) x comment x children at depth class > method > parameter and class > field, with the chosen namespace last of 2 and of 3, and every action x comment action x children on the diff side for class keys K, A$B, p/A$B$1. Every case is replayed through the real functions; random larger trees with placeholder-like names and real diffs are judged by TLC.",
     "level_note": "Trusted: TLC string operators, projection of mapping and diff trees (proj_quill.rs).",
     "assumptions": ["TLC/SANY/CommunityModules", "harness projection (proj_quill.rs)"],
 }
